@@ -2105,3 +2105,49 @@ CASES += [
          new="""        let stored_negated = |x: SddPtr<'a>| x.is_neg() || self.is_false(x) || x.is_neg_var();
         if stored_negated(bdd.high()) {"""),
 ]
+
+VTF = "src/repr/vtree.rs"
+CASES += [
+    # ------------------------------------------------------------------ FD (round 9, pre-emptive from the coverage listing)
+    dict(name="fd-right-child-dropped", file=VTF, rule="FD", props=["C14"], expect="from_dtree:FD1",
+         old="""                    (None, Some(r)) => Some(VTree::right_linear_c(cutset_v.as_slice(), &Some(r))),""",
+         new="""                    (None, Some(_r)) => Some(VTree::right_linear_c(cutset_v.as_slice(), &None)),"""),
+    dict(name="fd-both-children-left-only", file=VTF, rule="FD", props=["C14"], expect="from_dtree:FD1",
+         old="""                        let subtree = VTree::new_node(Box::new(l), Box::new(r));
+                        Some(VTree::right_linear_c(cutset_v.as_slice(), &Some(subtree)))""",
+         new="""                        let _ = r;
+                        Some(VTree::right_linear_c(cutset_v.as_slice(), &Some(l)))"""),
+    dict(name="fd-none-without-cutset-test", file=VTF, rule="FD", props=["C14"], expect="from_dtree:FD1",
+         old="""                    (None, None) if cutset_v.is_empty() => None,
+                    (None, None) => Some(VTree::right_linear_c(cutset_v.as_slice(), &None)),""",
+         new="""                    (None, None) => None,"""),
+    dict(name="fd-left-child-twice", file=VTF, rule="FD", props=["C14"], expect="from_dtree:FD1",
+         old="""                        let subtree = VTree::new_node(Box::new(l), Box::new(r));""",
+         new="""                        let _ = r;
+                        let subtree = VTree::new_node(Box::new(l.clone()), Box::new(l));"""),
+    dict(name="fd-continuation-dropped-at-last-var", file=VTF, rule="FD", props=["C14"], expect="right_linear_c:FD2",
+         old="""            (&[v1], Some(v2)) => {
+                VTree::new_node(Box::new(VTree::new_leaf(v1)), Box::new(v2.clone()))
+            }""",
+         new="""            (&[v1], Some(_v2)) => VTree::new_leaf(v1),"""),
+    dict(name="fd-continuation-not-passed-down", file=VTF, rule="FD", props=["C14"], expect="right_linear_c:FD2",
+         old="""                let sub = VTree::right_linear_c(vars, continuation);""",
+         new="""                let sub = VTree::right_linear_c(vars, &None);"""),
+    dict(name="fd-or-pattern-and-if-let-ok", file=VTF, rule="FD", props=["C14"], expect=None,
+         old="""                    (Some(l), None) => Some(VTree::right_linear_c(cutset_v.as_slice(), &Some(l))),
+                    (None, Some(r)) => Some(VTree::right_linear_c(cutset_v.as_slice(), &Some(r))),""",
+         new="""                    (Some(t), None) | (None, Some(t)) => {
+                        let k = Some(t);
+                        Some(VTree::right_linear_c(&cutset_v, &k))
+                    }"""),
+    dict(name="fd-leaf-case-by-len-ok", file=VTF, rule="FD", props=["C14"], expect=None,
+         old="""                if cutset.is_empty() {
+                    None
+                } else {
+                    Some(VTree::right_linear_c(cutset_v.as_slice(), &None))
+                }""",
+         new="""                if !cutset.is_empty() {
+                    return Some(VTree::right_linear_c(cutset_v.as_slice(), &None));
+                }
+                None"""),
+]
